@@ -15,6 +15,7 @@ PLANS = {
         mcgen=[dict(model="MC_Cmp", quick="MC_Cmp_quick.cfg", thorough="MC_Cmp_thorough.cfg")],
         drive=True,
     ),
+    "C04": dict(drive=True),
     "C05": dict(
         mcgen=[dict(model="MC_Parse", quick="MC_Parse_quick.cfg", thorough="MC_Parse_thorough.cfg")],
         drive=True,
@@ -24,6 +25,10 @@ PLANS = {
         drive=True,
     ),
     "C07": dict(
+        mcgen=[dict(model="MC_Round", quick="MC_Round_quick.cfg", thorough="MC_Round_thorough.cfg")],
+        drive=True,
+    ),
+    "C16": dict(
         mcgen=[dict(model="MC_Round", quick="MC_Round_quick.cfg", thorough="MC_Round_thorough.cfg")],
         drive=True,
     ),
